@@ -177,6 +177,17 @@ func clAllocItemInitialises(c *Ctx) {
 			continue
 		}
 		n++
+		fBornX := p.Field("nitro", "Item", "bornSn")
+		bornCleared := fi.PathAvoiding(in, isReturn, func(x ssa.Instruction) bool {
+			st, ok := x.(*ssa.Store)
+			if !ok {
+				return false
+			}
+			f, _ := addrField(st.Addr)
+			return f == fBornX && isConstInt(0)(st.Val)
+		}) == nil
+		c.Check(bornCleared, fn, in, "item from the user allocator starts with bornSn == 0",
+			"restored items keep the birth epoch 0 they are allocated with; with a recycling allocator a stale bornSn makes a restored item invisible to the restored snapshot")
 		cleared := fi.PathAvoiding(in, isReturn, func(x ssa.Instruction) bool {
 			st, ok := x.(*ssa.Store)
 			if !ok {
